@@ -500,7 +500,7 @@ func compare(t *rapid.T, tbl route.Table, m *model, text string, fixedTol, effTo
 }
 
 func TestC05Commands(t *testing.T) {
-	hx.Check(t, hx.Scale(10000, 500000), func(t *rapid.T) {
+	hx.Check(t, hx.Scale(40000, 500000), func(t *rapid.T) {
 		prog := genProgram(t)
 		m := &model{}
 		var lines []string
